@@ -87,14 +87,84 @@ theorem St.mask_handleS1 (s : St) (h : Head) (fr : Framing) (a : Action) :
 
 theorem St.mask_handleS3 (s : St) (h : Head) (f : Finish) :
     (handleS3 s h f).maskPartial = handleS3 s.maskPartial h f := by
-  cases f <;> rfl
+  cases f with
+  | respondFail r n =>
+    simp only [handleS3]
+    split <;> rfl
+  | _ => rfl
 
 /-! ### `handleO`, decomposed like `handle` -/
 
-def handleReadO (a : Action) (body : Body) (s : OSrc) : Bytes × Option ReadOut × Body × OSrc :=
+/-- the empty-buffer read of `handleO`. -/
+def zeroReadEffectO (body : Body) (s : OSrc) : Option (Body × OSrc) :=
+  match body with
+  | .limited _ | .chunked _ =>
+    (match Body.drainO (s.bytes.length + 2) body s with
+     | some s' => some (.done, s')
+     | none => none)
+  | _ => some (body, s)
+
+def handleZRO (a : Action) (body : Body) (s : OSrc) : Option (Body × OSrc) :=
+  if a.asReaderCalls > 0 && a.zeroRead then zeroReadEffectO body s else some (body, s)
+
+/-- the reads proper of `handleO`. -/
+def handleReadO0 (a : Action) (body : Body) (s : OSrc) : Bytes × Option ReadOut × Body × OSrc :=
   if a.asReaderCalls > 0 && a.readTotal > 0 then
     Body.readUpToO (a.readTotal + 1) body (max a.bufSize 1) a.readTotal s
   else ([], none, body, s)
+
+def handleReadO (a : Action) (body : Body) (s : OSrc) : Bytes × Option ReadOut × Body × OSrc :=
+  match handleZRO a body s with
+  | some (b', s') => handleReadO0 a b' s'
+  | none => ([], some .pending, body, s)
+
+/-- `handleO` after its empty-buffer read, whose outcome is `zr`. -/
+def handleO1 (st : St) (h : Head) (fr : Framing) (last : Bool) (a : Action) (zr : Option (Body × OSrc))
+    (body : Body) (s : OSrc) : St × OSrc × Bool :=
+  let st1 := if a.asReaderCalls > 0 && fr.expectContinue then
+      st.emit 100 (printResp (Resp.empty 100) [] h.version h.headers true none) true
+    else st
+  let (body, s, zrBlocked) := match zr with
+    | some (b', s') => (b', s', false)
+    | none => (body, s, true)
+  let (got, rend, body1, s1) :=
+    if zrBlocked then ([], some ReadOut.pending, body, s)
+    else if a.asReaderCalls > 0 && a.readTotal > 0 then
+      Body.readUpToO (a.readTotal + 1) body (max a.bufSize 1) a.readTotal s
+    else ([], none, body, s)
+  let readEnd : ReadEnd := match rend with
+    | none => .none
+    | some .eof => .eof
+    | some .err => .err
+    | some .pending => .pending
+    | some (.data _) => .none
+  let d : Delivered := ⟨h.method, h.url, h.version, h.headers, fr.bodyLength, got, readEnd, last⟩
+  let st2 := { st1 with delivered := st1.delivered ++ [d] }
+  if readEnd == .pending then (st2, s1, true)
+  else
+    let isHead := h.method.isHead
+    let st3 := match a.fin with
+      | .respond r => st2.emit r.status (printResp r.toResp r.pieces h.version h.headers isHead none) true
+      | .drop => st2.emit 500 (printResp (Resp.empty 500) [] h.version h.headers isHead none) true
+      | .writer ops =>
+        let b := wopsBytes ops
+        let base := st2.out.length
+        { st2 with out := st2.out ++ b, flushed := wopsFlushed ops base st2.flushed }
+      | .upgrade proto r ops =>
+        let s' := st2.emit r.status (printResp r.toResp r.pieces h.version h.headers false (some proto)) true
+        let b := wopsBytes ops
+        let base := s'.out.length
+        { s' with out := s'.out ++ b, flushed := wopsFlushed ops base s'.flushed }
+      | .respondFail r failAfter =>
+        (match printRespFailing r h.version h.headers isHead failAfter with
+         | some (bytes, ok) => st2.emit r.status (some bytes) ok
+         | none => st2.emit r.status none false)
+    match Body.drainO (s1.bytes.length + 2) body1 s1 with
+    | some s2 => (st3, s2, false)
+    | none => (st3, { s1 with bytes := [] }, true)
+
+theorem handleO_eq0 (st : St) (h : Head) (fr : Framing) (last : Bool) (a : Action) (body : Body) (s : OSrc) :
+    handleO st h fr last a body s = handleO1 st h fr last a (handleZRO a body s) body s := rfl
 
 theorem handleO_eq (st : St) (h : Head) (fr : Framing) (last : Bool) (a : Action) (body : Body) (s : OSrc) :
     handleO st h fr last a body s =
@@ -107,19 +177,86 @@ theorem handleO_eq (st : St) (h : Head) (fr : Framing) (last : Bool) (a : Action
         match Body.drainO (rd.2.2.2.bytes.length + 2) rd.2.2.1 rd.2.2.2 with
         | some s' => (handleS3 s2 h a.fin, s', false)
         | none => (handleS3 s2 h a.fin, { rd.2.2.2 with bytes := [] }, true) := by
-  unfold handleO handleReadO
-  generalize (if (decide (a.asReaderCalls > 0) && decide (a.readTotal > 0)) = true then
-        Body.readUpToO (a.readTotal + 1) body (max a.bufSize 1) a.readTotal s
-      else ([], none, body, s)) = rd
-  obtain ⟨got, rend, body1, s1⟩ := rd
-  rcases rend with _ | (_ | _ | _ | _)
-  all_goals first | rfl | (cases a.fin <;> rfl)
+  rw [handleO_eq0]
+  unfold handleO1 handleReadO
+  generalize handleZRO a body s = zr
+  rcases zr with _ | ⟨b', s'⟩
+  · rfl
+  · unfold handleReadO0
+    simp only [Bool.false_eq_true, if_false]
+    generalize (if (decide (a.asReaderCalls > 0) && decide (a.readTotal > 0)) = true then
+          Body.readUpToO (a.readTotal + 1) b' (max a.bufSize 1) a.readTotal s'
+        else ([], none, b', s')) = rd
+    obtain ⟨got, rend, body1, s1⟩ := rd
+    rcases rend with _ | (_ | _ | _ | _)
+    all_goals first | rfl | (cases a.fin <;> rfl)
 
 theorem readEndOf_pending (e : Option ReadOut) : readEndOf e = .pending ↔ e = some .pending := by
   rcases e with _ | (_ | _ | _ | _) <;> simp [readEndOf]
 
 theorem readEndOf_err (e : Option ReadOut) : readEndOf e = .err ↔ e = some .err := by
   rcases e with _ | (_ | _ | _ | _) <;> simp [readEndOf]
+
+/-- the reads proper of `handleO` against those of `handle`. -/
+theorem handleReadO0_vs_flat (a : Action) (body : Body) (bs : Bytes) (fin : EndState) (orc : List Nat)
+    (hb0 : body ≠ .chunked (some 0)) :
+    let r := handleReadO0 a body ⟨bs, fin, orc⟩
+    let f := handleRead0 a body bs fin
+    r.2.1 = f.2.1 ∧ r.2.2.1 = f.2.2.1 ∧ r.2.2.2.bytes = f.2.2.2 ∧ r.2.2.2.fin = fin ∧
+    ((¬ (∃ ic, body = .chunked ic) ∨ (f.2.1 ≠ some .err ∧ f.2.1 ≠ some .pending)) → r.1 = f.1) ∧
+    (f.2.1 ≠ some .pending → f.2.2.1 ≠ .chunked (some 0)) := by
+  unfold handleReadO0 handleRead0
+  by_cases hc : (decide (a.asReaderCalls > 0) && decide (a.readTotal > 0)) = true
+  · simp only [hc, if_true]
+    exact readUpToO_vs_flat (a.readTotal + 1) body (max a.bufSize 1) a.readTotal bs fin orc (by omega) (by omega) hb0
+  · simp only [hc]
+    exact ⟨rfl, rfl, rfl, rfl, fun _ => rfl, fun _ => hb0⟩
+
+/-- the empty-buffer read of `handleO` against that of `handle`: both block, or both continue
+    with the same reader state at the same stream position. -/
+theorem zeroReadEffectO_vs_flat (body : Body) (bs : Bytes) (fin : EndState) (orc : List Nat)
+    (hb0 : body ≠ .chunked (some 0)) :
+    (zeroReadEffect body bs fin = none ∧ zeroReadEffectO body ⟨bs, fin, orc⟩ = none) ∨
+    (∃ b' r orc', zeroReadEffect body bs fin = some (b', r) ∧
+      zeroReadEffectO body ⟨bs, fin, orc⟩ = some (b', ⟨r, fin, orc'⟩) ∧ b' ≠ .chunked (some 0) ∧
+      ((∃ ic, b' = .chunked ic) → ∃ ic, body = .chunked ic)) := by
+  have key : ∀ b : Body, b ≠ .chunked (some 0) →
+      ((match Body.drain (bs.length + 2) b bs fin with
+          | some bs' => some (Body.done, bs')
+          | none => none) = none ∧
+        (match Body.drainO (bs.length + 2) b ⟨bs, fin, orc⟩ with
+          | some s' => some (Body.done, s')
+          | none => none) = none) ∨
+      (∃ b' r orc', (match Body.drain (bs.length + 2) b bs fin with
+          | some bs' => some (Body.done, bs')
+          | none => none) = some (b', r) ∧
+        (match Body.drainO (bs.length + 2) b ⟨bs, fin, orc⟩ with
+          | some s' => some (Body.done, s')
+          | none => none) = some (b', ⟨r, fin, orc'⟩) ∧ b' ≠ .chunked (some 0) ∧
+        ((∃ ic, b' = .chunked ic) → ∃ ic, body = .chunked ic)) := by
+    intro b hb
+    rcases drainO_vs_flat (bs.length + 2) b bs fin orc hb (by omega) with ⟨f1, f2⟩ | ⟨r, o', f1, f2⟩
+    · rw [f1, f2]; exact Or.inl ⟨rfl, rfl⟩
+    · rw [f1, f2]
+      exact Or.inr ⟨.done, r, o', rfl, rfl, (by intro h; cases h), fun ⟨_, h⟩ => by cases h⟩
+  cases body with
+  | limited n => exact key _ hb0
+  | chunked ic => exact key _ hb0
+  | done => exact Or.inr ⟨_, _, orc, rfl, rfl, hb0, fun h => h⟩
+  | failed => exact Or.inr ⟨_, _, orc, rfl, rfl, hb0, fun h => h⟩
+  | cursor d => exact Or.inr ⟨_, _, orc, rfl, rfl, hb0, fun h => h⟩
+  | raw => exact Or.inr ⟨_, _, orc, rfl, rfl, hb0, fun h => h⟩
+
+theorem handleZRO_vs_flat (a : Action) (body : Body) (bs : Bytes) (fin : EndState) (orc : List Nat)
+    (hb0 : body ≠ .chunked (some 0)) :
+    (handleZR a body bs fin = none ∧ handleZRO a body ⟨bs, fin, orc⟩ = none) ∨
+    (∃ b' r orc', handleZR a body bs fin = some (b', r) ∧
+      handleZRO a body ⟨bs, fin, orc⟩ = some (b', ⟨r, fin, orc'⟩) ∧ b' ≠ .chunked (some 0) ∧
+      ((∃ ic, b' = .chunked ic) → ∃ ic, body = .chunked ic)) := by
+  unfold handleZR handleZRO
+  split
+  · exact zeroReadEffectO_vs_flat body bs fin orc hb0
+  · exact Or.inr ⟨_, _, orc, rfl, rfl, hb0, fun h => h⟩
 
 /-- the read phase of `handleO` against that of `handle`. -/
 theorem handleReadO_vs_flat (a : Action) (body : Body) (bs : Bytes) (fin : EndState) (orc : List Nat)
@@ -129,12 +266,14 @@ theorem handleReadO_vs_flat (a : Action) (body : Body) (bs : Bytes) (fin : EndSt
     r.2.1 = f.2.1 ∧ r.2.2.1 = f.2.2.1 ∧ r.2.2.2.bytes = f.2.2.2 ∧ r.2.2.2.fin = fin ∧
     ((¬ (∃ ic, body = .chunked ic) ∨ (f.2.1 ≠ some .err ∧ f.2.1 ≠ some .pending)) → r.1 = f.1) ∧
     (f.2.1 ≠ some .pending → f.2.2.1 ≠ .chunked (some 0)) := by
-  unfold handleReadO handleRead
-  by_cases hc : (decide (a.asReaderCalls > 0) && decide (a.readTotal > 0)) = true
-  · simp only [hc, if_true]
-    exact readUpToO_vs_flat (a.readTotal + 1) body (max a.bufSize 1) a.readTotal bs fin orc (by omega) (by omega) hb0
-  · simp only [hc]
-    exact ⟨rfl, rfl, rfl, rfl, fun _ => rfl, fun _ => hb0⟩
+  rcases handleZRO_vs_flat a body bs fin orc hb0 with ⟨z1, z2⟩ | ⟨b', r, orc', z1, z2, hb0', hck⟩
+  · simp [handleReadO, handleRead, z1, z2]
+  · simp only [handleReadO, handleRead, z1, z2]
+    obtain ⟨e1, e2, e3, e4, e5, e6⟩ := handleReadO0_vs_flat a b' r fin orc' hb0'
+    refine ⟨e1, e2, e3, e4, fun h => e5 ?_, e6⟩
+    rcases h with h | h
+    · exact Or.inl (fun hc => h (hck hc))
+    · exact Or.inr h
 
 /-- `handleO` against `handle`, from states that agree up to the mask. -/
 theorem handleO_vs_flat (st1 st2 : St) (h : Head) (fr : Framing) (last : Bool) (a : Action) (body : Body)
